@@ -124,7 +124,9 @@ def run(chk):
         srcs.append(render(e, rng.choice(['min', 'rand', 'full']), rng.choice(['rand', 'rand', 'one', 'min']), rng))
     srcs += ["a", " a ", "\n\na\n", "-a", "- - a", "!a", "a.b", "a . b", "a[0]", "a (1)", "f(1,2)", "[ ]", "{ }", "[1,]", "{'a':1,}",
              "a\n+\nb", "  (  a  )  ", "a ? b : c", "match a { case 1 : 2 }", "match a { case int : 2 , case _ : 3 }",
-             "'é'+'€'", "x.y.z(1)[2].w", "'x\r\ny' + z", "a +\r\nb", "a\r+ b", "'\r\r' +\n z", "[\n'\r\n',\n 1]", "- -  - a . b", "! ! a", "1 . size ( )", "f'{a}{b}'", "a in [1, 2]", "a\t&&\tb\n||\nc"]
+             "'é'+'€'", "x.y.z(1)[2].w", "'x\r\ny' + z", "a +\r\nb", "a\r+ b", "'\r\r' +\n z", "[\n'\r\n',\n 1]", "- -  - a . b", "! ! a", "1 . size ( )", "f'{a}{b}'", "a in [1, 2]", "a\t&&\tb\n||\nc",
+             "\ufeffx + 1", "\ufeff", "\ufeff\nx", "\ufeff 'a' + b", "x\ufeff + 1", "\ufeff\ufeffx", "\u200bx + 1", "\u00a0x", "\ufeff[1,\n 2]",
+             "\ufeff(x", "\ufeffx +"]
     cases = ["parse " + vs(s) for s in srcs]
     impl, model = tie(chk, "syntax trees with spans", cases, labels=srcs)
     rep_src, rep_want, rep_from = [], [], []
